@@ -44,6 +44,7 @@ def run(chk, facts, tier):
     chk.rule('never-answered', 'responses, rejects and instant-based indications are not answered: no fill() in their branch and commit = false', floor=6)
     chk.rule('version-once', 'LL_VERSION_IND is answered only while !version_indication_received_, which is set in that branch', floor=1)
     chk.rule('procedure-timeout-armed', 'each branch of transmit_pending_control_pdus that sends a request expecting an answer stores procedure_timeout_ = delta_time(default_procedure_timeout_us) (40 s)', floor=3)
+    chk.rule('procedure-timeout-cleared-by-answer', 'in the LL_UNKNOWN_RSP / LL_REJECT_IND / LL_REJECT_EXT_IND branch procedure_timeout_ is cleared only under conditions that an answer naming an unrelated request refutes (three valued folding of the enclosing conditions with opcode_contains_request = true and body[1] = 0x14)', floor=2)
     chk.rule('procedure-timeout-ends-link', 'timeout() and end_event() call force_disconnect(connection_ll_response_timeout) exactly when the armed procedure timeout elapsed', floor=2)
 
     # opcode constants
@@ -58,6 +59,34 @@ def run(chk, facts, tier):
         if name in consts:
             chk.obligation('opcode-values', 'link_layer constants', '%s == 0x%02x' % (name, consts[name]), consts[name] == v, '' if consts[name] == v else 'specification says 0x%02x' % v, key=name)
     ptv = consts.get('default_procedure_timeout_us')
+    # the 40 s response timeout is disarmed only by the answer to the own procedure
+    from .lib.dlist import fold
+    UNRELATED = 0x14   # LL_LENGTH_REQ: never initiated by this link layer
+    for fn in [f for f in variants(facts, LL + 'handle_ll_control_data', chk) if f.kind == 'pattern']:
+        n = 0
+        for tgt, op, val, st in stores(fn.body):
+            if not (is_name(tgt, 'procedure_timeout_') and op == '=' and val is not None and strip_casts(val).d.get('call') is not None and not strip_casts(val).args() and 'delta_time' in (strip_casts(val).t or strip_casts(val).text())):
+                continue
+            conds = must_hold(st)
+            if not any(mentions(c, 'LL_UNKNOWN_RSP') or mentions(c, 'LL_REJECT_EXT_IND') for c, o in conds if o):
+                continue   # clears in the branches of LL_VERSION_IND / LL_CONNECTION_UPDATE_IND: identified by their own opcode
+            n += 1
+            # a reject / unknown-response that names an unrelated request must not reach this store
+            feasible = []
+            for opc in ('LL_UNKNOWN_RSP', 'LL_REJECT_EXT_IND'):
+                env = dict(consts)
+                env.update({'opcode': consts.get(opc), 'opcode_contains_request': 1, 'body[1]': UNRELATED, 'size': 2 if opc == 'LL_UNKNOWN_RSP' else 3})
+                ok_path = True
+                for c, o in conds:
+                    r = fold(c, env)
+                    if r is not None and bool(r) != o:
+                        ok_path = False
+                        break
+                if ok_path:
+                    feasible.append(opc)
+            chk.instance('procedure-timeout-cleared-by-answer', fn, 'procedure_timeout_ = delta_time() at line %d' % st.l, not feasible,
+                         '' if not feasible else 'the response timeout is disarmed by an %s that names an unrelated request (e.g. opcode 0x%02x): a peripheral-initiated procedure that is never answered no longer ends the connection after 40 s' % ('/'.join(feasible), UNRELATED),
+                         node=st, key='clear@%s' % ('reject branch %d' % n))
     handlers = []
     for q in (LL + 'handle_ll_control_data', 'bluetoe::link_layer::details::link_layer_security_impl::impl::handle_encryption_pdus', 'bluetoe::link_layer::details::phy_update_request_impl::handle_phy_request'):
         handlers += [f for f in variants(facts, q, chk)]
